@@ -104,6 +104,12 @@ func toIface(a []int) interface{} {
 	return r
 }
 
+// White-box access (wb_test.go sets these from init); without them the white-box events are not generated.
+var vRequired func(int, float64) uint
+var vCheck func(l, h *[consts.HashTrinarySize]uint, n uint) int
+
+func vWBOp(op string) bool { return op == "pow.required" || op == "pow.check" }
+
 func runF(op string, in M) (M, M) {
 	switch op {
 	case "pow.Score":
@@ -119,7 +125,7 @@ func runF(op string, in M) (M, M) {
 		ln := vIntOf(in["len"])
 		target := vFloatOf(in["target"])
 		var z uint
-		p := vCatch(func() { z = requiredTrailingZeros(ln, target) })
+		p := vCatch(func() { z = vRequired(ln, target) })
 		if z > 243 {
 			return M{"z": -1, "s_z": vFloat(0), "panic": p}, M{}
 		}
@@ -153,7 +159,7 @@ func runF(op string, in M) (M, M) {
 			}
 		}
 		var idx int
-		p := vCatch(func() { idx = checkStateTrits(&l, &h, uint(n)) })
+		p := vCatch(func() { idx = vCheck(&l, &h, uint(n)) })
 		return M{"idx": idx, "panic": p}, M{}
 	}
 	panic("unknown op " + op)
@@ -163,6 +169,9 @@ func TestVerifDriver(t *testing.T) {
 	rec := vOpen()
 	defer rec.close()
 	emit := func(op string, in M) {
+		if vWBOp(op) && vRequired == nil {
+			return
+		}
 		in = vNorm(in)
 		out, facts := runF(op, in)
 		rec.i++
